@@ -14,6 +14,8 @@ import (
 	"strings"
 	"unsafe"
 
+	"go.dedis.ch/kyber/v4"
+	"go.dedis.ch/kyber/v4/share"
 	rdkg "go.dedis.ch/kyber/v4/share/dkg/rabin"
 	rvss "go.dedis.ch/kyber/v4/share/vss/rabin"
 	"go.dedis.ch/kyber/v4/sign/schnorr"
@@ -103,7 +105,177 @@ func (n *rabNode) stateTok() string {
 	if len(vs) > 0 {
 		vl = strings.Join(vs, ";")
 	}
-	return cert + "#" + ql + "#" + vl
+	// second phase
+	fin, _ := guard(func() (string, string) { return b01(n.gen.Finished()), "" })
+	field := func(name string) reflect.Value {
+		rf := reflect.ValueOf(n.gen).Elem().FieldByName(name)
+		return reflect.NewAt(rf.Type(), unsafe.Pointer(rf.UnsafeAddr())).Elem()
+	}
+	cm := field("commitments").Interface().(map[uint32]*share.PubPoly)
+	var ck []int
+	for i := range cm {
+		ck = append(ck, int(i))
+	}
+	sort.Ints(ck)
+	var cs []string
+	for _, i := range ck {
+		l := "-"
+		if pp := cm[uint32(i)]; pp != nil {
+			_, pts := pp.Info()
+			var ls []string
+			for _, pt := range pts {
+				ls = append(ls, kc.HexN(dlgroup.Log(pt)))
+			}
+			if len(ls) > 0 {
+				l = strings.Join(ls, ",")
+			}
+		}
+		cs = append(cs, fmt.Sprintf("%x=%s", i, l))
+	}
+	pm := field("pendingReconstruct").Interface().(map[uint32][]*rdkg.ReconstructCommits)
+	var pk []int
+	for i := range pm {
+		pk = append(pk, int(i))
+	}
+	sort.Ints(pk)
+	var ps []string
+	for _, i := range pk {
+		var rs []string
+		for _, r := range pm[uint32(i)] {
+			rs = append(rs, fmt.Sprintf("%x.%s.%x.%s", r.Index, n.nt.st.tok(r.SessionID), r.Share.I, kc.HexN(sc2big(r.Share.V))))
+		}
+		l := "-"
+		if len(rs) > 0 {
+			l = strings.Join(rs, ",")
+		}
+		ps = append(ps, fmt.Sprintf("%x=%s", i, l))
+	}
+	rm := field("reconstructed").Interface().(map[uint32]bool)
+	var rk []int
+	for i := range rm {
+		rk = append(rk, int(i))
+	}
+	sort.Ints(rk)
+	var rl []string
+	for _, i := range rk {
+		rl = append(rl, fmt.Sprintf("%x", i))
+	}
+	j := func(l []string, sep string) string {
+		if len(l) == 0 {
+			return "-"
+		}
+		return strings.Join(l, sep)
+	}
+	// the node's own VSS dealer
+	dl := n.dealer()
+	dst := dl.VerifState()
+	dc, _ := guard(func() (string, string) { return b01(dl.DealCertified()), "" })
+	den := "-"
+	if dst.Present {
+		den, _ = guard(func() (string, string) { return b01(dl.EnoughApprovals()), "" })
+	}
+	dsn := &aggSnap{present: dst.Present, cert: dc, enough: den, bad: dst.BadDealer, t: dst.T, sid: dst.SID, sidNil: dst.SID == nil, hasDeal: dst.HasDeal, responses: dst.Responses}
+	return cert + "#" + ql + "#" + vl + "#" + fin + "#" + j(cs, ";") + "#" + j(ps, ";") + "#" + j(rl, ",") + "#" + dsn.render(&n.nt.st)
+}
+
+func logsTok(pts []kyber.Point) string {
+	if len(pts) == 0 {
+		return "-"
+	}
+	ls := make([]string, len(pts))
+	for i, p := range pts {
+		ls[i] = kc.HexN(dlgroup.Log(p))
+	}
+	return strings.Join(ls, ",")
+}
+
+func (n *rabNode) sigOK(idx uint32, msg, sig []byte) bool {
+	return int(idx) < len(n.pubs) && schnorr.Verify(n.tr.w.suite, n.pubs[idx], msg, sig) == nil
+}
+
+func (n *rabNode) secretCommits() (sc *rdkg.SecretCommits, err error) {
+	n.record(func() string { return "S:" + logsTok(n.dealer().Commits()) }, func() string {
+		sc, err = n.gen.SecretCommits()
+		if err != nil {
+			return "err"
+		}
+		return "ok"
+	})
+	return sc, err
+}
+
+func (n *rabNode) processSecretCommits(sc *rdkg.SecretCommits) (cc *rdkg.ComplaintCommits, err error) {
+	n.record(func() string {
+		if sc == nil {
+			return "?"
+		}
+		return fmt.Sprintf("C:%x:%s:%s:%s", sc.Index, n.nt.st.tok(sc.SessionID), b01(n.sigOK(sc.Index, sc.Hash(n.tr.w.suite), sc.Signature)), logsTok(sc.Commitments))
+	}, func() string {
+		cc, err = n.gen.ProcessSecretCommits(sc)
+		switch {
+		case err != nil:
+			return "err"
+		case cc != nil:
+			return "complaintcommits"
+		}
+		return "ok"
+	})
+	return cc, err
+}
+
+func (n *rabNode) processComplaintCommits(cc *rdkg.ComplaintCommits) (rc *rdkg.ReconstructCommits, err error) {
+	n.record(func() string {
+		if cc == nil {
+			return "?"
+		}
+		md, ok := n.mdealOf(cc.DealerIndex, cc.Deal)
+		if !ok {
+			return "?"
+		}
+		return fmt.Sprintf("P:%x:%x:%s:%s", cc.Index, cc.DealerIndex, b01(n.sigOK(cc.Index, cc.Hash(n.tr.w.suite), cc.Signature)), md.line(&n.nt.st))
+	}, func() string {
+		rc, err = n.gen.ProcessComplaintCommits(cc)
+		switch {
+		case err != nil:
+			return "err"
+		case rc != nil:
+			return "reconstructcommits"
+		}
+		return "ok"
+	})
+	return rc, err
+}
+
+func (n *rabNode) processReconstructCommits(rc *rdkg.ReconstructCommits) (err error) {
+	n.record(func() string {
+		if rc == nil {
+			return "?"
+		}
+		has, si, sv := rc.Share != nil && rc.Share.V != nil, uint32(0), "0"
+		if has {
+			si, sv = rc.Share.I, kc.HexN(sc2big(rc.Share.V))
+		}
+		return fmt.Sprintf("X:%s:%x:%x:%s:%x:%s:%s", n.nt.st.tok(rc.SessionID), rc.Index, rc.DealerIndex, b01(has), si, sv,
+			b01(n.sigOK(rc.Index, rc.Hash(n.tr.w.suite), rc.Signature)))
+	}, func() string {
+		err = n.gen.ProcessReconstructCommits(rc)
+		if err != nil {
+			return "err"
+		}
+		return "ok"
+	})
+	return err
+}
+
+// keyQuery records what DistKeyShare() answers now (share and commitments of the distributed key, or an error).
+func (n *rabNode) keyQuery() {
+	n.record(func() string { return "K" }, func() string {
+		dks, err := n.gen.DistKeyShare()
+		if err != nil || dks == nil || dks.Share == nil {
+			return "err"
+		}
+		return "key:" + kc.HexN(sc2big(dks.Share.V)) + ":" + logsTok(dks.Commits)
+	})
 }
 
 // record runs one call of the real generator and appends (model op, outcome class + state) to the trace.
@@ -270,6 +442,9 @@ func rabTraceDone(c *kc.Ctx, nodes []*rabNode) {
 }
 
 func rabCoarse(out string) string {
+	if strings.HasPrefix(out, "key:") {
+		return out
+	}
 	if strings.HasPrefix(out, "err") || strings.HasPrefix(out, "vss-") {
 		return "err"
 	}
@@ -296,7 +471,11 @@ func rabFlush(c *kc.Ctx) {
 		} else {
 			for k := range impl {
 				mo, rest, _ := strings.Cut(mt[k], "#")
-				c.CountKind("rabin-model-out:" + mo)
+				if strings.HasPrefix(mo, "key:") {
+					c.CountKind("rabin-model-out:key")
+				} else {
+					c.CountKind("rabin-model-out:" + mo)
+				}
 				c.Eval(1)
 				if at < 0 && rabCoarse(mo)+"#"+rest != impl[k] {
 					at = k
